@@ -80,9 +80,11 @@ func Clean(m *testing.M, opts ...CleanOpts) {
 	// This is just for making sure Clean is called from TestMain
 	_ = m
 	runOnly := flag.Lookup("test.run").Value.String()
-	count, _ := strconv.Atoi(flag.Lookup("test.count").Value.String())
+	// the registries track the highest occurrence each test reached in any execution, the
+	// number of calls of a test can differ between the executions of `go test -count=N`
+	const count = 1
 	registeredStandaloneTests := occurrences(
-		standaloneTestsRegistry.cleanup,
+		standaloneTestsRegistry.highest,
 		count,
 		standaloneOccurrenceFMT,
 	)
@@ -94,7 +96,7 @@ func Clean(m *testing.M, opts ...CleanOpts) {
 		shouldClean && !isCI,
 	)
 	obsoleteTests, err := examineSnaps(
-		testsRegistry.cleanup,
+		testsRegistry.highest,
 		usedFiles,
 		runOnly,
 		count,
